@@ -375,9 +375,10 @@ def f(ctx):
     # roles are identified structurally, not by name: the payload slice self.payload[S:E] gives the start and end
     # locals, the option tuple (number, M, size_exp) gives the more local, and the non-BERT start definition
     # `number * X` gives the size local
-    sl = [n for n in walk_no_nested(xb.node) if isinstance(n, ast.Subscript) and chain(n.value) == "self.payload" and isinstance(n.slice, ast.Slice) and isinstance(n.slice.lower, ast.Name) and isinstance(n.slice.upper, ast.Name)]
+    sl = [n for n in walk_no_nested(xb.node) if isinstance(n, ast.Subscript) and chain(n.value) == "self.payload" and isinstance(n.slice, ast.Slice) and isinstance(n.slice.lower, ast.Name) and n.slice.upper is not None and n.slice.step is None]
     ctx.need(len(sl) == 1, "_extract_block: the payload slice self.payload[start:end] was not found")
-    S, E = sl[0].slice.lower.id, sl[0].slice.upper.id
+    S = sl[0].slice.lower.id
+    E = sl[0].slice.upper.id if isinstance(sl[0].slice.upper, ast.Name) else None
     start_defs = [n for n in writes_to_name(xb.node, S) if isinstance(n, ast.Assign)]
     nonbert_start = [n for n in start_defs if guarded_by(xcfg, xcfg.loc1(n), "%s == 7" % szx, False)]
     ctx.need(len(nonbert_start) == 1, "_extract_block: non-BERT start definition not found")
@@ -405,15 +406,22 @@ def f(ctx):
         if ("lt", Poly.atom("len(self.payload)") - Poly.atom(S) - Poly.const(1)) in facts and cls == "aiocoap.error.BadRequest":
             okr = True
     ctx.ob("a block starting at or beyond the end of the body is answered 4.00", okr, xb, raises[0] if raises else xb.node, construct="_extract_block out-of-range guard")
-    end_defs = [n for n in writes_to_name(xb.node, E) if isinstance(n, ast.Assign)]
+    end_defs = [n for n in writes_to_name(xb.node, E) if isinstance(n, ast.Assign)] if E else []
     oke = False
     ss = Poly.atom(S) + (Poly.atom(Z) if Z else size_p)
     ln = Poly.atom("len(self.payload)")
-    if len(end_defs) == 1:
+    clamped_end = False  # the upper bound is min(start+size, len) (True) or start+size relying on slice clamping (False)
+    if E is None:
+        try:
+            oke = N2.poly(sl[0].slice.upper) == ss
+        except NormError:
+            oke = False
+    elif len(end_defs) == 1:
         v = end_defs[0].value
         mm = match("min($a, $b)", v)
         if mm is not None:
             oke = {repr(N2.poly(mm["a"])), repr(N2.poly(mm["b"]))} == {repr(ss), repr(ln)}
+            clamped_end = oke
         elif isinstance(v, ast.IfExp):
             try:
                 t = N2.cmp(v.test)
@@ -422,9 +430,15 @@ def f(ctx):
                     oke = a_ == ss and b__ == ln
                 elif t == ("lt", ln - ss) or t == ("lt", ln - ss - Poly.const(1)):
                     oke = a_ == ln and b__ == ss
+                clamped_end = oke
             except NormError:
                 oke = False
-    ctx.ob("the slice ends at min(start + size, len(body))", oke, xb, end_defs[0] if end_defs else xb.node, construct="_extract_block end")
+        else:
+            try:
+                oke = N2.poly(v) == ss
+            except NormError:
+                oke = False
+    ctx.ob("the slice ends at min(start + size, len(body)) (explicitly, or start + size with slice clamping)", oke, xb, end_defs[0] if end_defs else sl[0], construct="_extract_block end")
     # the option tuple (number, M, size_exp)
     bo = []
     for n in walk_no_nested(xb.node):
@@ -441,7 +455,8 @@ def f(ctx):
             if isinstance(v, ast.IfExp) and isinstance(v.body, ast.Constant) and v.body.value is True and isinstance(v.orelse, ast.Constant) and v.orelse.value is False:
                 v = v.test
             try:
-                okm = N2.cmp(v) == ("lt", Poly.atom(E) - ln)
+                got = N2.cmp(v)
+                okm = got == ("lt", ss - ln) or (E is not None and got == ("lt", Poly.atom(E) - ln))
             except NormError:
                 okm = False
     ctx.ob("the more-flag is set exactly when bytes remain after the slice (end < len(body))", okm, xb, more_defs[0] if more_defs else xb.node, construct="_extract_block more")
